@@ -194,7 +194,8 @@ class Feedback:
 
         # Presentation
         if fields is not None:
-            self.fields = fields
+            # (a dictionary of its own: the caller may use theirs again)
+            self.fields = dict(fields)
         else:
             self.fields = {}
         if self.constant_fields is not None:
